@@ -331,11 +331,11 @@ Theorem sp_share_proportional_f64 : forall sp value sp' charge incs stake,
 Proof.
   intros sp value sp' charge incs stake Hwf Hv Hsum Hst H Hne.
   assert (Hq : (0 <= value / 2 ^ 50)%Z) by (apply Z.div_pos; lia).
-  apply (sp_share_proportional sp_chargef_go sp_sharef_go (2 + value / 2 ^ 50) value); try assumption; try lia.
+  apply (sp_share_proportional sp_chargef_go sp_sharef_go (2 + value / 2 ^ 50) value) with (incs := incs); try assumption; try lia.
   - exact sp_sharef_go_nonneg.
   - intros vl b s r Hs Hb Hvl Hr.
     apply Z.le_trans with ((2 + vl / 2 ^ 50) * s)%Z.
-    + apply sp_sharef_go_accurate; try assumption; [unfold sp_max in Hs; lia|lia].
+    + apply sp_sharef_go_accurate; [exact Hb|unfold sp_max in Hs; lia|lia|exact Hr].
     + apply Z.mul_le_mono_nonneg_r; [lia|]. apply Zplus_le_compat_l. apply Z.div_le_mono; lia.
   - apply sp_chargef_go_nonneg.
 Qed.
